@@ -358,15 +358,25 @@ class Ctx:
     def finish(self) -> int:
         findings = [f for f in load_findings() if f["property"] == self.prop]
         open_f = [f for f in findings if f.get("status") == "open"]
+        # status "observation": a recorded behaviour that an oracle of the rig flags although the PROPERTY AS STATED holds there (the
+        # oracle is deliberately stronger than the property, e.g. "no protected DEVICE changes" where the property speaks of host B
+        # only). A report matching its narrow signature is neither a violation nor a known finding: it is counted in the evidence.
+        obs_f = [f for f in findings if f.get("status") == "observation"]
         out_lines: List[str] = []
         unlisted = []
         known_hit: Dict[str, dict] = {}
+        obs_hit: Dict[str, int] = {}
         for v in self.violations:
             hit = next((f for f in open_f if sig_matches(f["signature"], v["sig"])), None)
             if hit:
                 known_hit.setdefault(hit["id"], hit)
+                continue
+            ob = next((f for f in obs_f if sig_matches(f["signature"], v["sig"])), None)
+            if ob:
+                obs_hit[ob["id"]] = obs_hit.get(ob["id"], 0) + 1
             else:
                 unlisted.append(v)
+        self.cov["observations_matched"] = obs_hit
         for fid, f in known_hit.items():
             out_lines.append(f"KNOWN-FINDING: property={self.prop} {fid} {f['what']}")
         broken = [o for o in self.obligations if not o["ok"]]
